@@ -118,7 +118,8 @@ def preuse_solver(P, solver, case, cfl, variant=None):
             f = P.field.copy()
             dt = float(np.min(P.disc.calc_timestep(f, 0.7 * cfl)))
             if np.isfinite(dt) and dt > 0:
-                solver.solve(f, 0.7 * cfl, [f.time + 0.4 * dt, f.time + 1.7 * dt], monitors={"residual": {"frequency": 1}})
+                # (iteration limit: flowdyn's solve() never returns once a time step is NaN, e.g. after an unstable step of this preliminary run)
+                solver.solve(f, 0.7 * cfl, [f.time + 0.4 * dt, f.time + 1.7 * dt], stop={"maxit": 8}, monitors={"residual": {"frequency": 1}})
         else:
             return 0
     except (np.linalg.LinAlgError, FloatingPointError, ValueError, ZeroDivisionError):
